@@ -1,3 +1,5 @@
+import re
+
 from ..binary import Binary
 
 
@@ -25,7 +27,11 @@ def parse_hex_string(buffer):
         except StopIteration:
             raise ValueError("Invalid hex string: uneven amount of digits.")
 
-        # parse
+        # parse (int() alone would also accept a sign: "+1", "-1")
+        if not re.fullmatch(b"[0-9a-fA-F]{2}", high_nibble + low_nibble):
+            raise ValueError(
+                f"Invalid hex string: {high_nibble + low_nibble} is not a pair of hex digits."
+            )
         yield int(high_nibble + low_nibble, 16)
 
         high_nibble = b""
